@@ -5,35 +5,35 @@ import SecsModel.Props.C04
 
 `Model.Wedge` is the thread/pc-level hand model of the protocol receiver thread, the dispatcher thread and the close sequence;
 `Model.TcpStop` of the two stop-flag handshakes of the TCP connection classes.  Assumed, not modelled: the scheduler is weakly fair
-(an enabled thread eventually runs — it only enters through "maximal run"), `Connection.send_data` returns, and the operating system's
-socket behaviour.  Only property theorems, non-vacuity examples and witnesses live here.
+(an enabled thread eventually runs — it only enters through "maximal run"), `Connection.send_data` returns (`True` or `False`), and the
+operating system's socket behaviour.  The models follow `/repo` HEAD, i.e. with the repairs 725a0b2 (receive loop), 8ac2aeb (send queue
+loop) and 1a14b53 (stop-flag handshakes); the behaviour before each repair is kept as a model variant for regression witnesses.  Only property theorems, non-vacuity examples and witnesses live here.
 -/
 namespace SecsModel.Props.C09
 open SecsModel SecsModel.Model.Rx SecsModel.Model.Wedge SecsModel.Proofs.HsmsWedge SecsModel.Proofs.HsmsRx
 
 /-! ## the framing loop and the close sequence -/
 
-/-- **Never wedged** (partial: histories in which no `send_data` fails — with a failing send the statement is false for the code that exists,
-see `send_failure_strands_separate`).  For every history — any byte stream, cut into any segments (`chunk c` for arbitrary `c`: every cut offset, inside the
+/-- **Never wedged.**  For every history — any byte stream, cut into any segments (`chunk c` for arbitrary `c`: every cut offset, inside the
 length field, header or body), any number of connections, the close sequence started at any moment, any interleaving of the three threads,
-any block contents (`disp reply` for both values: in every session state a request may or may not be answered) — as long as no
-`send_data` fails: the receiver thread is never inside a blocking read, and whenever the close sequence has begun and not finished some
-thread of the endpoint can take a step. -/
-theorem never_wedged_partial (s : St) (h : Reachable s) : s.prx ≠ .blockedRead ∧ wedged false s = false :=
+any block contents (`disp reply` for both values: in every session state a request may or may not be answered), any result of every
+`send_data` (`prx ok` for both values): the receiver thread is never inside a blocking read, and whenever the close sequence has begun and
+not finished some thread of the endpoint can take a step. -/
+theorem never_wedged (s : St) (h : Reachable s) : s.prx ≠ .blockedRead ∧ wedged .current s = false :=
   ⟨(inv_reachable s h).noBlocked, not_wedged_of_inv s (inv_reachable s h)⟩
 
-/-- **Close completes within a step bound under weak fairness** (partial: no failing `send_data`, see above).  From any reachable state in which the close sequence has begun, *every*
+/-- **Close completes within a step bound under weak fairness.**  From any reachable state in which the close sequence has begun, *every*
 maximal run of the endpoint's own threads (a run that ends where no thread can take a step — which is where a weakly fair scheduler ends
 up) has at most `mu s` steps and ends with the close sequence finished: connection thread done, NOT CONNECTED, empty receive buffer,
 receiver thread exited. -/
-theorem close_completes_partial (s s' : St) (ls : List Lbl) (h : Reachable s) (hc : s.tcp.closing = true)
-    (hl : ∀ l ∈ ls, l.internal = true ∧ l.good = true) (hr : run false s ls = some s') (hq : quiescent false s' = true) :
+theorem close_completes (s s' : St) (ls : List Lbl) (h : Reachable s) (hc : s.tcp.closing = true)
+    (hl : ∀ l ∈ ls, l.internal = true) (hr : run .current s ls = some s') (hq : quiescent .current s' = true) :
     ls.length ≤ mu s ∧ s'.tcp = .done ∧ s'.conn = false ∧ s'.buf = [] ∧ s'.prx = .exited := by
-  have hb := run_bound ls s s' (fun l hx => (hl l hx).1) hr
-  have hreach : Reachable s' := reachable_run s s' ls (fun l hx => (hl l hx).2) h hr
+  have hb := run_bound ls s s' hl hr
+  have hreach : Reachable s' := reachable_run s s' ls h hr
   have hi := inv_reachable s' hreach
   have hnw := not_wedged_of_inv s' hi
-  have hcl := closing_run ls s s' (fun l hx => (hl l hx).1) hr (Or.inl hc)
+  have hcl := closing_run ls s s' hl hr (Or.inl hc)
   have hdone : s'.tcp = .done := by
     rcases hcl with hc' | hd
     · simp [wedged, hc', hq] at hnw
@@ -53,40 +53,40 @@ theorem close_completes_partial (s s' : St) (ls : List Lbl) (h : Reachable s) (h
 
 /-- … and such maximal runs exist from every state (the bound is not vacuous): the endpoint's own threads can always run to quiescence -/
 theorem close_reachable (s : St) :
-    ∃ ls s', (∀ l ∈ ls, l.internal = true ∧ l.good = true) ∧ run false s ls = some s' ∧ quiescent false s' = true :=
+    ∃ ls s', (∀ l ∈ ls, l.internal = true) ∧ run .current s ls = some s' ∧ quiescent .current s' = true :=
   exists_maximal_run (mu s) s (Nat.le_refl _)
 
 /-- a 7-byte cut of a Linktest.req: the frame the witnesses below use -/
 def cut7 : Bytes := [0, 0, 0, 10, 0xFF, 0xFF, 0]
 def linktest : Bytes := [0, 0, 0, 10, 0xFF, 0xFF, 0, 0, 0, 5, 0, 0, 0, 7]
 
-/-- non-vacuity of `never_wedged_partial`/`close_completes_partial`: connect, 7 of 14 bytes of a Linktest.req, the receiver thread runs the loop and goes
+/-- non-vacuity of `never_wedged`/`close_completes`: connect, 7 of 14 bytes of a Linktest.req, the receiver thread runs the loop and goes
 back to waiting, the peer closes — a reachable state inside the close sequence; running the threads to quiescence finishes it in 14 steps -/
 def cutThenClose : List Lbl := [.connect, .chunk cut7, .prx true, .prx true, .prx true, .prx true, .prx true, .close]
 def closeSteps : List Lbl :=
   [.tcp, .prx true, .prx true, .prx true, .prx true, .prx true, .prx true, .tcp, .tcp, .prx true, .prx true, .tcp, .tcp]
 
-example : ∃ s, run false St.init cutThenClose = some s ∧ s.tcp = .sepEnq ∧ s.buf = cut7 ∧ s.prx = .idle := by
+example : ∃ s, run .current St.init cutThenClose = some s ∧ s.tcp = .sepEnq ∧ s.buf = cut7 ∧ s.prx = .idle := by
   refine ⟨_, rfl, ?_⟩; decide +kernel
-/-- … and it is `Reachable` in the sense of the theorems (no failing send in the history), with the close sequence begun -/
+/-- … and it is `Reachable` in the sense of the theorems, with the close sequence begun -/
 example : ∃ s, Reachable s ∧ s.tcp.closing = true ∧ s.rxErr = false ∧ s.tcp ≠ .done :=
-  ⟨_, ⟨cutThenClose, by decide, rfl⟩, by decide +kernel, by decide +kernel, by decide +kernel⟩
-example : ∃ s s', run false St.init cutThenClose = some s ∧ run false s closeSteps = some s' ∧ quiescent false s' = true
+  ⟨_, ⟨cutThenClose, rfl⟩, by decide +kernel, by decide +kernel, by decide +kernel⟩
+example : ∃ s s', run .current St.init cutThenClose = some s ∧ run .current s closeSteps = some s' ∧ quiescent .current s' = true
     ∧ s'.tcp = .done ∧ s'.conn = false ∧ s'.buf = [] ∧ s'.prx = .exited ∧ closeSteps.length ≤ mu s := by
   refine ⟨_, _, rfl, rfl, ?_⟩; decide +kernel
 
-/-- **witness for the repaired defect** (F-12, `fixed:` in `known_findings.txt`): with the blocking read of the receive loop
-(`blocking = true`), the same history — 7 of 14 bytes of a Linktest.req, then peer close — reaches a *wedged* state: the connection thread
+/-- **regression witness for the repaired defect** (F-12, `fixed:` 725a0b2): with the blocking read of the receive loop
+(`Variant.blockingRead`), the same history — 7 of 14 bytes of a Linktest.req, then peer close — reaches a *wedged* state: the connection thread
 waits for its Separate.req, the receiver thread sits in `wait_for`, nothing can move.  The model tells the two loops apart. -/
 theorem blocking_read_wedges :
-    ∃ s, run true St.init [.connect, .chunk cut7, .prx true, .prx true, .prx true, .prx true, .close, .tcp] = some s
-      ∧ s.prx = .blockedRead ∧ s.tcp = .sepWait ∧ wedged true s = true := by
+    ∃ s, run .blockingRead St.init [.connect, .chunk cut7, .prx true, .prx true, .prx true, .prx true, .close, .tcp] = some s
+      ∧ s.prx = .blockedRead ∧ s.tcp = .sepWait ∧ wedged .blockingRead s = true := by
   refine ⟨_, rfl, ?_⟩; decide +kernel
 
 /-! ## no stale bytes -/
 
 /-- **No stale received bytes, at thread level** (the receive direction of "carries no stale bytes into the next connection"; the send
-direction is refuted by `stale_reply_into_next_connection`).  In every reachable state of a connection on which no frame was dropped by a decode exception:
+direction is refuted by `stale_reply_into_next_connection`, the one open finding).  In every reachable state of a connection on which no frame was dropped by a decode exception:
 the blocks delivered since the connect, followed by what the loop would still deliver from the buffer, are exactly what one run of the
 receive loop makes of the bytes received *on this connection* — nothing left over from an earlier connection takes part, whatever the
 earlier connections received, wherever they were cut, and however the threads interleaved. -/
@@ -119,30 +119,38 @@ theorem reconnect_segmentation (s : Rx) (bs : List Block) (hv : ∀ b ∈ bs, Va
 
 /-- non-vacuity: cut inside a Linktest.req, close, reconnect, a complete Linktest.req: exactly one block is delivered on the second
 connection and the buffer ends empty (with the stale 7 bytes it would have been a 17-byte garbage frame) -/
-example : ∃ s, run false St.init (cutThenClose ++ closeSteps ++ [.connect, .chunk linktest, .prx true, .prx true, .prx true, .prx true, .prx true, .prx true])
+example : ∃ s, run .current St.init (cutThenClose ++ closeSteps ++ [.connect, .chunk linktest, .prx true, .prx true, .prx true, .prx true, .prx true, .prx true])
       = some s ∧ s.delivered.length = 1 ∧ s.mark = 0 ∧ s.buf = [] ∧ s.rxErr = false ∧ s.prx = .idle := by
   refine ⟨_, rfl, ?_⟩; decide +kernel
 
-/-! ## what the model shows beyond the repaired loop (reported, see theorems/C09.json) -/
+/-! ## what the model showed beyond the brief -/
 
-/-- **witness: a failing `send_data` strands the Separate.req.**  `_process_send_queue` *returns* after a failed packet; blocks queued behind
-it stay in the queue until the next trigger.  History: a request is answered by the dispatcher and the peer's close is noticed before the
-receiver thread wakes up (reply and Separate.req are both queued under one trigger), then the reply's `send_data` fails: the receiver thread
-goes back to waiting with the Separate.req still queued, the connection thread waits for it for ever — wedged. -/
+/-- the schedule of the repaired send-queue defect: a Linktest.req is answered by the dispatcher and the peer's close is noticed before the
+receiver thread wakes up (reply and Separate.req queued under ONE trigger); then the reply's `send_data` fails -/
+def sendFails : List Lbl :=
+  [.connect, .chunk linktest, .prx true, .prx true, .prx true, .prx true, .prx true, .prx true,
+   .disp true, .disp true, .close, .tcp, .prx true, .prx true, .prx false]
+
+/-- **regression witness for the repaired defect** (`fixed:` 8ac2aeb, found by this model): with the send loop that *returned* after a failed
+block (`Variant.returningSendLoop`) the receiver thread goes back to waiting with the Separate.req still queued and the trigger clear; the
+connection thread waits for it for ever — wedged.  With the loop that exists the same history runs on and the close sequence finishes. -/
 theorem send_failure_strands_separate :
-    ∃ s, run false St.init [.connect, .chunk linktest, .prx true, .prx true, .prx true, .prx true, .prx true, .prx true,
-        .disp true, .disp true, .close, .tcp, .prx true, .prx true, .prx false, .prx true, .prx true, .disp true, .disp true] = some s
-      ∧ s.tcp = .sepWait ∧ s.sendQ = [.sep] ∧ s.prx = .idle ∧ s.rxTrig = false ∧ wedged false s = true := by
-  refine ⟨_, rfl, ?_⟩; decide +kernel
+    (∃ s, run .returningSendLoop St.init (sendFails ++ [.prx true, .prx true, .disp true, .disp true]) = some s
+      ∧ s.tcp = .sepWait ∧ s.sendQ = [.sep] ∧ s.prx = .idle ∧ s.rxTrig = false ∧ wedged .returningSendLoop s = true)
+    ∧ (∃ s, run .current St.init (sendFails ++ [.prx true, .prx true, .prx true, .prx true, .tcp, .tcp, .prx true, .prx true, .tcp, .tcp,
+          .disp true, .disp true]) = some s
+      ∧ s.tcp = .done ∧ s.conn = false ∧ s.buf = [] ∧ s.prx = .exited ∧ s.sendQ = [] ∧ quiescent .current s = true) := by
+  refine ⟨⟨_, rfl, ?_⟩, ⟨_, rfl, ?_⟩⟩ <;> decide +kernel
 
-/-- **witness: a reply queued after the receiver thread has been stopped is carried into the next connection.**  The dispatcher thread is
+/-- **witness (OPEN finding `c09-stale-reply-next-connection`): a reply queued after the receiver thread has been stopped is carried into the
+next connection.**  The dispatcher thread is
 never stopped (F-8); a block still in the dispatch queue when the close sequence runs is handled afterwards, its handler queues the answer
 and waits — until the next connection's receiver thread sends the stale answer as the first thing on the new connection. -/
 theorem stale_reply_into_next_connection :
-    ∃ s, run false St.init ([.connect, .chunk linktest, .prx true, .prx true, .prx true, .prx true, .prx true, .prx true, .close] ++ closeSteps
+    ∃ s, run .current St.init ([.connect, .chunk linktest, .prx true, .prx true, .prx true, .prx true, .prx true, .prx true, .close] ++ closeSteps
         ++ [.disp true, .disp true]) = some s
-      ∧ s.tcp = .done ∧ s.disp = .waitReply ∧ s.sendQ = [.reply] ∧ quiescent false s = true
-      ∧ ∃ s', run false s [.connect, .prx true, .prx true, .prx true] = some s' ∧ s'.out = [.reply] ∧ s'.fed = [] := by
+      ∧ s.tcp = .done ∧ s.disp = .waitReply ∧ s.sendQ = [.reply] ∧ quiescent .current s = true
+      ∧ ∃ s', run .current s [.connect, .prx true, .prx true, .prx true] = some s' ∧ s'.out = [.reply] ∧ s'.fed = [] := by
   refine ⟨_, rfl, ?_, ?_, ?_, ?_, _, rfl, ?_⟩ <;> decide +kernel
 
 /-! ## the stop-flag handshakes of the TCP connection classes (F-13, still present: `open:` finding `c09-tcp-disable-hang`) -/
